@@ -17,6 +17,8 @@ def plan(tier, seed):
                shape=dict(old_ids=ids), env=dict(VERIF_OLD_IDS=ids))
         j["name"] += "[ids=%s]" % ids
         jobs.append(j)
+    from . import cats
+    jobs += cats.jobs("C07", tier)
     jobs.append(ch("C07", "vf/pyshim/h_wc.py", "h_cat_dictionary", t,
                    ["writer.write_column (dictionary page of a categorical chunk)"]))
     jobs.append(ch("C07", G, "h_find_max_part", t, ["writer.find_max_part", "api.part_ids"]))
